@@ -8,7 +8,9 @@
 (* volume = 2 pi c_r A = pi |Sx| / 3,  with the shoelace sums S2, Sx, Sy.    *)
 (* One TLC state per (polygon, rotation, orientation).                       *)
 (***************************************************************************)
-EXTENDS Integers, Sequences, FiniteSets, TLC, Json
+EXTENDS Integers, Sequences, FiniteSets, TLC, Json, SequencesExt
+
+CONSTANT WithFamily      \* BOOLEAN: include the parameterised quadrilateral family
 
 Polys == << <<<<1, 0>>, <<4, 0>>, <<2, 3>>>>,                                      \* triangle
             <<<<2, 1>>, <<5, 1>>, <<5, 3>>, <<2, 3>>>>,                            \* rectangle
@@ -25,11 +27,20 @@ Polys == << <<<<1, 0>>, <<4, 0>>, <<2, 3>>>>,                                   
             <<<<1, 0>>, <<5, 0>>, <<5, 4>>, <<4, 4>>, <<4, 1>>, <<2, 1>>, <<2, 4>>, <<1, 4>>>>,   \* U shape (8 vertices, concave)
             <<<<2, 0>>, <<4, 0>>, <<5, 2>>, <<4, 4>>, <<2, 4>>, <<1, 2>>>> >>      \* convex hexagon
 
+\* a family of grid-cell-like quadrilaterals: trapezoids with their parallel sides along r, <<r0, 0>>, <<r0 + a, 0>>, <<r0 + a - c, h>>,
+\* <<r0 + d, h>> (d + c < a; rectangles, right and isosceles trapezoids, slanted ones), and their mirror images with the parallel
+\* sides along z (coordinates swapped, vertex order reversed so that the orientation is kept)
+TrapParams == {t \in {0, 2} \X (2..4) \X (1..2) \X (0..1) \X (0..1) : t[4] + t[5] < t[2]}
+TrapR(t) == << <<t[1], 0>>, <<t[1] + t[2], 0>>, <<t[1] + t[2] - t[5], t[3]>>, <<t[1] + t[4], t[3]>> >>
+TrapZ(t) == << <<t[1], 0>>, <<t[1] + t[3], t[4]>>, <<t[1] + t[3], t[2] - t[5]>>, <<t[1], t[2]>> >>
+Family == SetToSeq({TrapR(t) : t \in TrapParams} \cup {TrapZ(t) : t \in TrapParams})
+AllPolys == IF WithFamily THEN Polys \o Family ELSE Polys
+
 VARIABLES poly, rot, rev
 vars == <<poly, rot, rev>>
 
 Rotate(P, k) == [i \in 1..Len(P) |-> P[((i - 1 + k) % Len(P)) + 1]]
-Reverse(P) == [i \in 1..Len(P) |-> P[Len(P) + 1 - i]]
+
 Orbit(P, k, r) == IF r THEN Reverse(Rotate(P, k)) ELSE Rotate(P, k)
 
 Nxt(P, i) == P[(i % Len(P)) + 1]
@@ -41,12 +52,12 @@ Sx(P) == Sum([i \in 1..Len(P) |-> (P[i][1] + Nxt(P, i)[1]) * Cross(P, i)], Len(P
 Sy(P) == Sum([i \in 1..Len(P) |-> (P[i][2] + Nxt(P, i)[2]) * Cross(P, i)], Len(P))
 Abs(x) == IF x < 0 THEN -x ELSE x
 
-Init == poly \in 1..Len(Polys) /\ rot \in 0..7 /\ rev \in BOOLEAN /\ rot < Len(Polys[poly])
+Init == poly \in 1..Len(AllPolys) /\ rot \in 0..7 /\ rev \in BOOLEAN /\ rot < Len(AllPolys[poly])
 Next == UNCHANGED vars
 Spec == Init /\ [][Next]_vars
 
-V == Orbit(Polys[poly], rot, rev)
-C == Polys[poly]
+V == Orbit(AllPolys[poly], rot, rev)
+C == AllPolys[poly]
 \* area, centroid and volume do not depend on the starting vertex or the orientation
 AreaInvariant == Abs(S2(V)) = Abs(S2(C)) /\ Abs(S2(V)) > 0
 CentroidInvariant == Sx(V) * S2(C) = Sx(C) * S2(V) /\ Sy(V) * S2(C) = Sy(C) * S2(V)      \* Sx/S2 equal as rationals
